@@ -21,10 +21,10 @@ class C02(Prop):
     claimed = True
     diverge_is_violation = True
     level_text = ("Theorems for every byte string and every read-block size B >= 1 (FASTA family, text and digital): opening the file and reading records with sqascii_Read until the first non-OK status ends within size+2 calls with eslEOF or eslEFORMAT - never a fault (no buf[i] outside the buffer, no store outside an allocation of the ESL_SQ, through loadbuf / nextchar / header_fasta / seebuf / addbuf / end_fasta composed) - and every record returned is well formed (read_all_total, read_total; the reader IS the declarative parser specFasta: C04.read_all_eq_specFasta); the same for ReadInfo, ReadSequence (readInfo_total, readSequence_total) and whole-sequence ReadBlock (readBlock_total); eslEFORMAT always comes with a message; "
-                  "the primitives: loadbuf keeps its window inside the file (loadbuf_total), nextchar neither skips nor repeats a byte across block boundaries (nextchar_total), seebuf never leaves the buffer and rejects bytes >= 0x80 before they index the input map (seebuf_total), the file and alphabet input maps agree on every symbol (inmaps_agree, re-proved against the regenerated tables each run); read_nres / ReadWindow are total on records with clean data (read_nres_total, C04.windows_eq_read). "
+                  "the primitives: loadbuf keeps its window inside the file (loadbuf_total), nextchar neither skips nor repeats a byte across block boundaries (nextchar_total), seebuf never leaves the buffer and rejects bytes >= 0x80 before they index the input map (seebuf_total), the file and alphabet input maps agree on every symbol (inmaps_agree, re-proved against the regenerated tables each run); read_nres and forward ReadWindow are total for EVERY byte string as well - illegal bytes included: eslOK / eslEOD / eslEOF / eslEFORMAT with a message, no exception, never a fault (read_nres_total_any, readWindow_total). EMBL / UniProt / GenBank / DDBJ: sqascii_Read is total for every byte string and every B as well - eslOK / eslEOF / eslEFORMAT with a message, no exception, never a fault, the scanning loops never run away, and reading a whole file from open on ends with eslEOF or eslEFORMAT within size+2 calls (read_linebased_total, read_all_linebased_total). "
                   "Tie: exact differential run of the executable model (FASTA, EMBL/UniProt, GenBank/DDBJ, daemon, hmmpgmd, suffix/first-line autodetection; Read/ReadInfo/ReadSequence/ReadWindow/ReadBlock) (outcome, message flag, line number, every ESL_SQ field) against the ASan/UBSan/LSan build on mutated formats/* files, generated FASTA with injected NUL/CR/>=0x80/illegal bytes and raw bytes, x B swept over 1..4097 incl. the sizes that cut the header line, a CR LF pair or the file end; "
                   "for ALL nine format selections (incl. EMBL/UniProt/GenBank/DDBJ/daemon/hmmpgmd/autodetect/alignment-as-sequences) x text/amino/DNA/RNA x Read/ReadInfo/ReadSequence/ReadWindow/ReadBlock the harness-side monitor checks status in the documented set, message on eslEFORMAT, well-formed ESL_SQ, no exception, no sanitizer report, no leak.")
-    level_note = ("Totality as a theorem covers FASTA Read / ReadInfo / ReadSequence / whole-sequence ReadBlock for every byte string; ReadWindow / read_nres only for records whose data holds no illegal byte; the line-based formats (EMBL/UniProt/GenBank/DDBJ), daemon/hmmpgmd, long-target ReadBlock and the guessers are covered by the differential run and the sanitizer build. The alignment-as-sequences selections (and files whose format autodetection falls through to the MSA readers) and GuessAlphabet have no model: monitor only (search, not proof). Leaks are LSan only. Known finding: reverse-strand ReadWindow over an alignment file returns ill-formed coordinates (known_findings.d/C02.json). Well-formed Stockholm files read as sequences are checked against the dealigned rows by a monitor (no model).")
+    level_note = ("Totality as a theorem covers FASTA Read / ReadInfo / ReadSequence / whole-sequence ReadBlock / forward ReadWindow / read_nres for every byte string; reverse-strand windows on malformed data, the other read calls of the line-based formats (Read there is a theorem; block-size independence of Read/ReadInfo/ReadSequence is C04), daemon/hmmpgmd, long-target ReadBlock and the guessers are covered by the differential run and the sanitizer build. The alignment-as-sequences selections (and files whose format autodetection falls through to the MSA readers) and GuessAlphabet have no model: monitor only (search, not proof). Leaks are LSan only. Known finding: reverse-strand ReadWindow over an alignment file returns ill-formed coordinates (known_findings.d/C02.json). Well-formed Stockholm files read as sequences are checked against the dealigned rows by a monitor (no model).")
     assumptions = ["fread returns min(B, remaining) bytes; allocation never fails (eslEMEM paths not modelled)",
                    "alignment files read as sequences, MSA-format autodetection and GuessAlphabet are outside the model: sanitizer + record monitor only",
                    "the model mirrors esl_sqio_ascii.c by hand; fidelity is checked by the differential run only"]
